@@ -126,6 +126,31 @@ def oracle_C01(rnd, budget):
             r = run(p, 'h(v => v + v + v + v); 1 + 1 + 1 + 1 + 1 + 1', names={'h': swallow}, max_ops_evaluated=N)
             if r[0] == 'ok' and c.n > N:
                 fail(what='budget not enforced after a host callback swallowed the limit error', N=N, started=c.n, got=r)
+    # nothing of a program runs after eval has returned: host streams handed to the builtins, results consumed by the host
+    def gen():
+        for k in range(6):
+            yield k
+    for fname in Fn.FUNCTIONS:
+        for form in ('%s(src, v => cb(v))', 'src | %s', '%s(src, (a, b) => cb(a))', '%s(src, 3)'):
+            for mk in (lambda: iter([1, 2, 3, 4, 5, 6]), gen, lambda: [1, 2, 3, 4, 5, 6]):
+                case()
+                log = []
+
+                def cb(v, log=log):
+                    log.append(v)
+                    return v
+                with Counter() as c:
+                    r = run(p, form % fname, names={'src': mk(), 'cb': cb}, max_ops_evaluated=10 ** 5)
+                    during_ops, during_log = c.n, len(log)
+                    if r[0] == 'ok' and hasattr(r[1], '__next__'):
+                        try:
+                            for _ in r[1]:
+                                pass
+                        except Exception:
+                            pass
+                    if c.n != during_ops or len(log) != during_log:
+                        fail(what='operations of the program were started after eval had returned (a lazy result was consumed by the host)',
+                             src=form % fname, ops_during=during_ops, ops_after=c.n, callbacks_during=during_log, callbacks_after=len(log))
     # ast_names are charged to the same budget
     case()
     body = p.parse('[1,2,3,4,5,6,7,8,9,10] | map(v => v + 1) | len')
@@ -328,25 +353,32 @@ def oracle_C05(rnd, budget):
                (r'a' * 50, 'a' * 100000, None), (r'(\d+)*x', '1' * 30, None), (r'(?r)(a+)+b', 'c' + 'a' * 28, None),
                (r'(?:hello){e<=3}', 'hellx' * 2000, None)]
     p = SqParser()
+    # recorded defects of the unchanged tree (KNOWN_FINDINGS.jsonl, matched by these exact inputs): phases of the regex
+    # engine that the timeout does not cover
+    known = [('KF-C05-compile', 'a?' * 3000 + 'a' * 3000, 'a' * 3000, None),
+             ('KF-C05-fullcase', '(?if)' + 's' * 6000 + 'x', 'S' * 10 ** 5, None)]
     for fname in ('match', 'match_groups', 'match_all'):
-        for pat, subj, flags in triples:
+        for kid, pat, subj, flags in ([(None,) + t for t in triples] + (known if fname == 'match' or budget != 'quick' else [])):
             case()
             q = mp.Queue()
             w = mp.Process(target=_regex_worker, args=(fname, pat, subj, flags, q))
             t0 = time.time()
             w.start()
             w.join(2.0)
+            extra = {'known_id': kid} if kid else {}
             if w.is_alive():
                 w.kill()
                 w.join()
-                fail(what='regex builtin did not return within 2 s (killed by the watchdog)', fname=fname, pattern=pat, subject_len=len(subj), flags=flags)
+                fail(what='regex builtin did not return within 2 s (killed by the watchdog)', fname=fname, pattern=pat[:60], pattern_len=len(pat),
+                     subject_len=len(subj), flags=flags, **extra)
             else:
                 try:
                     dt, oc = q.get(timeout=1)
                 except Exception:
                     dt, oc = time.time() - t0, '?'
                 if dt > 1.0:
-                    fail(what='regex builtin took more than a second', fname=fname, pattern=pat, subject_len=len(subj), seconds=round(dt, 2), outcome=oc)
+                    fail(what='regex builtin took more than a second', fname=fname, pattern=pat[:60], pattern_len=len(pat), subject_len=len(subj),
+                         seconds=round(dt, 2), outcome=oc, **extra)
 
 
 def tree(op):
